@@ -82,7 +82,7 @@ Prefixed(ls) == [i \in 1..Len(ls) |-> " " \o ls[i]]
 LineLens(lines) == [i \in 1..Len(lines) |-> Len(lines[i]) + 1]
 TotalLen(lines) == SumSeq(LineLens(lines))                         \* characters including terminators
 \* Cap20K applies to real files only: VFSZip.open returns a codecs.StreamReader whose readlines() ignores the hint
-Capped(kind, lines) == kind \in {"file", "dir"} /\ TotalLen(lines) >= Hint
+Capped(kind, lines) == kind \in {"file", "dir", "gzfile", "mapfile", "mapdir"} /\ TotalLen(lines) >= Hint
 
 --------------------------------------------------------------------------------
 (* The abstract sidecar: [p, lines, nl]; gamma writes TextOf(lines, nl) to the file         *)
@@ -96,15 +96,23 @@ Printable(lines) == \A i \in 1..Len(lines) : TX!Chars(lines[i]) \cap {"\f", "\r"
 --------------------------------------------------------------------------------
 (* Blocks of an item as coded                                                               *)
 
+\* Item kinds.  Documents: file, zipfile (ZIP member), gzfile (file delivered decompressed by CompressedFileHandler),
+\* msg / mdmsg (virtual items: a message of an mbox file / of a Maildir).  Menus: dir, zipdir, mapdir (directory
+\* holding a `gophermap`), mapfile (a named *.gophermap FILE, served by BuckGophermapHandler as the menu it renders).
+MsgKinds == {"msg", "mdmsg"}
+MenuKinds == {"dir", "zipdir", "mapdir", "mapfile"}
+DocKinds == {"file", "zipfile", "gzfile"} \cup MsgKinds
+\* the entry carries a size only where the bytes on disk ARE the bytes delivered; as coded: virtual items have none, a
+\* decompressed file has none, a map file has none (its length on disk is not the length of the menu)
 KnownSize(kind) == kind \in {"file", "zipfile"}
-IsDirKind(kind) == kind \in {"dir", "zipdir"}
+IsDirKind(kind) == kind \in MenuKinds
 MimesOf(kind, ext) ==                              \* acceptable MIME names of the item (reference)
     IF IsDirKind(kind) THEN {"application/gopher-menu", "application/gopher+-menu"}
-    ELSE IF kind = "msg" THEN {"text/plain"}
-    ELSE {IF MimeOf(ext) = "" THEN DefaultMime ELSE MimeOf(ext)}
+    ELSE IF kind \in MsgKinds THEN {"text/plain"}
+    ELSE {IF MimeOf(ext) = "" THEN DefaultMime ELSE MimeOf(ext)}       \* gzfile: the type of the decompressed data
 CodeMime(kind, ext) ==                             \* as coded (gopherp.renderobjinfo rewrites menus in place)
     IF IsDirKind(kind) THEN "application/gopher+-menu"
-    ELSE IF kind = "msg" THEN "text/plain"
+    ELSE IF kind \in MsgKinds THEN "text/plain"
     ELSE IF MimeOf(ext) = "" THEN DefaultMime ELSE MimeOf(ext)
 
 SizePart(size) == IF size >= 0 THEN " <" \o ToString(size \div 1024) \o "k>" ELSE ""
@@ -142,21 +150,23 @@ HasAdmin(it) == \E i \in 1..Len(it.blocks) :
                    /\ it.blocks[i].name = "+ADMIN"
                    /\ \E j \in 1..Len(it.blocks[i].lines) : TX!StartsWith(it.blocks[i].lines[j], " Admin:")
 
-\* " <mime>[ <lang>]:[ <Nk>]"  with N = size div 1024 when the size is known
-ViewsLineOk(line, mimes, size) ==
+\* " <mime>[ <lang>]:[ <Nk>]".  `size` is the length of what the item delivers (bytes written by gamma, or the
+\* length of an independent plain fetch for items whose length only the server knows; -1 = no reference).  A stated
+\* size must be size div 1024; it MUST be stated when the entry's size is known by construction (`must`).
+LangOk(lang) == lang = "" \/ (TX!StartsWith(lang, " ") /\ ~TX!Contains(lang, ":") /\ ~TX!Contains(lang, "<"))
+ViewsLineOk(line, mimes, size, must) ==
     \E m \in mimes :
         /\ TX!StartsWith(line, " " \o m)
         /\ LET rest == SubSeq(line, Len(m) + 2, Len(line))
                tail == ":" \o SizePart(size)
-           IN IF size >= 0
-              THEN /\ TX!EndsWith(rest, tail)
-                   /\ LET lang == SubSeq(rest, 1, Len(rest) - Len(tail))
-                      IN lang = "" \/ (TX!StartsWith(lang, " ") /\ ~TX!Contains(lang, ":"))
-              ELSE \/ TX!StartsWith(rest, ":")
-                   \/ (TX!StartsWith(rest, " ") /\ TX!Contains(rest, ":"))
-ViewsTruthful(it, mimes, size) ==
+           IN \/ /\ TX!EndsWith(rest, tail)                                     \* the right size (or none to state)
+                 /\ LangOk(SubSeq(rest, 1, Len(rest) - Len(tail)))
+              \/ /\ ~must /\ TX!EndsWith(rest, ":")                             \* no size stated
+                 /\ LangOk(SubSeq(rest, 1, Len(rest) - 1))
+              \/ /\ size < 0 /\ TX!Contains(rest, ":")                          \* no reference: silent
+ViewsTruthful(it, mimes, size, must) ==
     LET vs == BlocksNamed(it, "+VIEWS")
-    IN Len(vs) = 1 /\ Len(vs[1].lines) = 1 /\ ViewsLineOk(vs[1].lines[1], mimes, size)
+    IN Len(vs) = 1 /\ Len(vs[1].lines) = 1 /\ ViewsLineOk(vs[1].lines[1], mimes, size, must)
 
 SidecarExact(it, sc) ==
     \A i \in 1..Len(EaExts) :
